@@ -104,4 +104,4 @@ theorem compact_spec (hs : H.Sound) (fuel d : Nat) (X : List (Key × VH)) (hc : 
         simp [compactStep, this]
 
 end Nomt
-#print axioms Nomt.compact_spec
+
